@@ -481,6 +481,26 @@ class SymNp:
     def finfo(self, t):
         return _Finfo(t)
 
+    def any(self, a, **kw):
+        if isinstance(a, View):
+            return a.any()
+        return _np.any(a, **kw)
+
+    def count_nonzero(self, a, **kw):
+        if isinstance(a, View):
+            raise Unsupported("count_nonzero on a symbolic field")
+        return _np.count_nonzero(a, **kw)
+
+    def allclose(self, a, b, rtol=1e-5, atol=1e-8, **kw):
+        """np.allclose(field, scalar): |a - b| <= atol + rtol |b| at EVERY cell (global predicate, forked)"""
+        if isinstance(a, View) and not isinstance(b, (View, Lazy)):
+            bb = S(b)
+            tol = S(atol) + S(rtol) * bb.fabs()
+            return a._global_predicate("allclose", lambda v: (v - bb).fabs() <= tol)
+        if isinstance(a, (View, Lazy)) or isinstance(b, (View, Lazy)):
+            raise Unsupported("np.allclose between symbolic arrays")
+        return _np.allclose(a, b, rtol=rtol, atol=atol, **kw)
+
 
 AMAX_LOG: list = []  # (m, lazy array): the universally quantified half  m >= a[c]  is instantiated on demand
 
